@@ -1,5 +1,5 @@
 """C15 - PRNG is deterministic in its entropy, forward secure, reseeds and reports status."""
-import random, time, collections
+import os, random, time, collections
 import common, diffrun, gen, stdflow
 from common import hx, rnd_bytes
 
@@ -62,6 +62,59 @@ def session(rng, tier, stats):
     return ops + body
 
 
+def c19_fill(n, seed, k):
+    """harness/c19_rand.h: what the shim's getrandom returns for the k-th request under seed"""
+    M = (1 << 64) - 1
+    x = (seed * 0x9E3779B97F4A7C15 + k * 0xD1342543DE82EF95 + 0x2545F4914F6CDD1D) & M
+    out, z = bytearray(), 0
+    for i in range(n):
+        if i & 7 == 0:
+            x = (x + 0x9E3779B97F4A7C15) & M
+            z = x
+            z = ((z ^ (z >> 30)) * 0xBF58476D1CE4E5B9) & M
+            z = ((z ^ (z >> 27)) * 0x94D049BB133111EB) & M
+            z ^= z >> 31
+        out.append((z >> (8 * (i & 7))) & 255)
+    return bytes(out)
+
+
+def real_source_sessions(res, driver, b, rng, tier, stats):
+    """The library's own system back end (src/random/ascon-trng-*.c), not the link-time substitute: the harness is linked without
+    h_trng.cpp and runs under the LD_PRELOAD shim of the C19 check (getrandom/getentropy deterministic, the k-th request failing
+    with EIO); the model gets the same answers scripted.  Status results and outputs must agree."""
+    import subprocess
+    got = b.get("default", harness_srcs=["main.cpp", "h_prng.cpp", "s_trngstub.cpp"], tag="-realtrng")
+    if not got:
+        return None
+    shim = os.path.join(got[0], "shim_c19.so")
+    common.sh(["gcc", "-shared", "-fPIC", "-O1", "-o", shim, os.path.join(common.VERIF, "harness", "shim_c19.c"), "-ldl"], check=True)
+    n = 0
+    nfail = 0
+    for _ in range(24 if tier == "quick" else 200):
+        ops = session(rng, tier, stats)
+        body = [l for l in ops if l.startswith("RN ") and not l.startswith("RN CALLS")]
+        need = sum(1 for l in ops if l.startswith("TRNG SYS "))
+        rseed = rng.randrange(1, 1 << 40)
+        faults = sorted(set(rng.randrange(0, need) for _ in range(rng.choice([0, 1, 1, 2, 3]))))
+        script = ["TRNG SYSCLEAR"] + ["TRNG SYS %s %d" % (hx(bytes(32)) if k in faults else hx(c19_fill(32, rseed, k)), 0 if k in faults else 1) for k in range(need)]
+        rc, mo, err = common.run_lines(driver, script + body)
+        mo = mo[len(script):]
+        env = dict(os.environ, LD_PRELOAD=shim, C19_RSEED=str(rseed), C19_FAULTS=",".join("g%d" % k for k in faults))
+        p = subprocess.run([got[1]], input=("\n".join(body) + "\n").encode(), stdout=subprocess.PIPE, stderr=subprocess.PIPE, env=env, timeout=300)
+        io = p.stdout.decode().split("\n")[:len(body)]
+        n += 1
+        nfail += len(faults)
+        for i, (l, a, c) in enumerate(zip(body, mo, io)):
+            if a != c:
+                res.violation("real-source-" + "-".join(l.split()[:2]),
+                              "with the library's own system source (getrandom request(s) %s failing with EIO, seed %d) the PRNG disagrees with the model on: %s\n model: %s\n impl:  %s"
+                              % (faults, rseed, l, a[:200], c[:200]),
+                              {"config": got[2], "ops": body[:i + 1], "model": mo[:i + 1], "impl": io[:i + 1], "rseed": rseed, "failing_requests": faults,
+                               "how": "harness linked without h_trng.cpp, LD_PRELOAD=shim_c19.so C19_RSEED=<rseed> C19_FAULTS=g<k>,..; model: TRNG SYS script with c19_fill answers"})
+                break
+    return {"sessions": n, "failing_requests_injected": nfail, "config": got[2]}
+
+
 def run(res, tier, seed, replay=None):
     t0 = time.time()
     rng = random.Random(seed)
@@ -88,6 +141,8 @@ def run(res, tier, seed, replay=None):
             got = b.get(cfg)
             if got:
                 per.append(diffrun.compare(res, corr, driver, got[1], got[2], sigfn=sig))
+        real = None if replay else real_source_sessions(res, driver, b, rng, tier, stats)
+    res.cov["real_system_source"] = real
     res.cov.update({
         "evaluations": sum(p["sessions"] for p in per),
         "distinct_nontrivial": max([p["nontrivial"] for p in per] or [0]),
@@ -101,7 +156,8 @@ def run(res, tier, seed, replay=None):
     })
     res.assumptions += ["'every byte influences all later output' is proved structurally (every entropy byte is absorbed into the sponge and followed by "
                         "the re-key before any output); the diffusion itself is a property of the permutation, only observed",
-                        "the library's own TRNG back end is replaced at link time by the scripted source (harness/h_trng.cpp)",
+                        "the library's own TRNG back end is replaced at link time by the scripted source (harness/h_trng.cpp) for the main histories; a second set of "
+                        "histories runs the real Linux back end under an LD_PRELOAD shim that makes chosen getrandom requests fail",
                         "Model/Prngm.v mirrors the C (differential run incl. full internal state)"]
     res.cov["wall_total"] = round(time.time() - t0, 1)
     return "proof"
